@@ -34,7 +34,18 @@ LVARS = ["local.r", "local.q", "level.int", "level.flt", "level.str", "level.vec
          "self.sf", "local.undefined2", "level.s.origin", "level.s.targetname", "level.s.angles", "level.s.scale",
          "level.dead.fieldx", "level.int.sub", "level.e.owner", "local.owner", "level.s.target", "$ta.f", "$tb.f", "$nope.f",
          "(NULL).f", "level.e2.fieldx"]
-LABELS = ["helper", "helper2", "blocker", "remover", "nolabel", "ender"]
+LABELS = ["helper", "helper2", "blocker", "remover", "nolabel", "ender", "twaiter"]
+# delays of delayed events: the harness pumps 12 frames of 60 ms, so every one of them comes due inside the run
+DELAYS = ["0", "0.03", "0.05", "0.1", "0.2", "0.3", "0.5", "0.65", "( -1)", "NIL", '"x"']
+DELAYED_CMDS = ['remove', 'delete', 'immediateremove', 'println "late"', 'notify "sig"', 'thread helper 1 2', 'nosuchcmd', 'commanddelay 0.1 remove',
+                'unregister "sig"', 'waittill "sig"', 'endon "sig"']
+REMOVALS = ["remove", "delete", "immediateremove"]
+# members of command-receiver lists: the running thread, its group, live / dead / absent listeners, non-listeners
+LIST_MEMBERS = ["local", "group", "self", "local.me", "local.th", "level.e", "level.e2", "level.s", "level.dead", "$ta", "$tb", "$nope", "NULL", "NIL",
+                "5", '"abc"', "1.5", "(1 2 3)", "level.arr", "level.carr", "game", "level", "parm", "local.fresh"]
+LIST_CMDS = ["remove", "delete", "immediateremove", 'notify "sig"', 'println "lst"', "commanddelay 0.1 remove", 'commanddelay 0.05 println "late"',
+             'waittill "sig"', 'waittill_timeout 0.1 "sig"', 'endon "sig"', "thread helper 1 2", "waitthread helper 1 2", "thread remover group",
+             'unregister "sig"', "nosuchcmd", "targetname \"tz\"", "origin (1 2 3)", "cancelFor \"sig\"", "end", "pause"]
 
 SETUP = """ level.e = spawn Listener
  level.e2 = spawn Listener
@@ -88,6 +99,11 @@ remover local.o:
 end
 ender:
  end (1::2)
+twaiter local.o local.t:
+ println "tw1"
+ local.o waittill_timeout local.t "sig"
+ println "tw2"
+end
 """
 
 
@@ -207,12 +223,77 @@ class Gen:
         if x < 0.82:
             self.count("try")
             return "try { %s; throw tc %s } catch { tc: println \"caught\"; %s }" % (self.transparent_stmt(), self.value(1), self.transparent_stmt())
-        if x < 0.9:
+        if x < 0.88:
             self.count("blocker")
             return r.choice(["thread blocker %s" % obj, "thread remover %s" % obj, "%s thread blocker %s" % (obj, obj)])
+        if x < 0.93:
+            return self.delayed_stmt()
+        if x < 0.96:
+            return self.list_stmt()
         self.count("spawn")
         return r.choice(['local.r = spawn %s' % self.value(1), 'local.r = spawn Listener "targetname" "tb"', 'local.r = spawn SimpleEntity "origin" %s' % self.value(1),
                          'local.r = spawn Nope', 'level.e = spawn Listener', 'local.r = local CreateListener'])
+
+    def delayed_stmt(self):
+        """a delayed event (commanddelay / waittill_timeout / waittill_any_timeout: posted to the event queue with a
+        delay) on an object that is removed before the event is due, or on the running thread / its group that end first"""
+        r = self.rng
+        self.count("delayed")
+        delay = r.choice(DELAYS[:8]) if r.random() < 0.85 else r.choice(DELAYS)
+        cmd = r.choice(DELAYED_CMDS)
+        rem = r.choice(REMOVALS)
+        x = r.random()
+        if x < 0.3:
+            # a fresh object: queue, then remove before the event is due (and use it again afterwards)
+            mk = r.choice(["local CreateListener", "spawn Listener", "spawn SimpleEntity", 'spawn SimpleEntity "targetname" "tb"'])
+            tail = r.choice(["", "\n local.fresh commanddelay %s %s" % (r.choice(DELAYS[:8]), r.choice(DELAYED_CMDS)), "\n wait %s" % r.choice(DELAYS[:8]),
+                             '\n println local.fresh'])
+            return "local.fresh = %s\n local.fresh commanddelay %s %s\n local.fresh %s%s" % (mk, delay, cmd, rem, tail)
+        if x < 0.5:
+            obj = r.choice(OBJECTS + ["(level.e::level.s)", "(level.e2::$tb)", "local.fresh"])
+            return "%s commanddelay %s %s\n %s %s" % (obj, delay, cmd, obj, rem)
+        if x < 0.62:
+            # events queued on the running thread / its group / self, which end or are removed before they are due
+            obj = r.choice(["local", "group", "self", "local", "group"])
+            return "%s commanddelay %s %s%s" % (obj, delay, cmd, r.choice(["", "\n end", "\n %s %s" % (obj, rem), "\n wait 0.05\n %s %s" % (obj, rem)]))
+        if x < 0.85:
+            # a thread waiting with a timeout on an object that is removed first (the waiter carries the queued timeout event)
+            obj = r.choice(["level.e", "level.e2", "level.s", "$ta", "$tb", "level.s2", "level.fresh2"])
+            pre = "level.fresh2 = spawn Listener\n " if obj == "level.fresh2" else ""
+            how = r.choice(["thread twaiter %s %s" % (obj, delay), "%s thread twaiter %s %s" % (obj, obj, delay), "level.e2 thread twaiter %s %s" % (obj, delay)])
+            gap = r.choice(["", "", "\n wait 0.03", "\n waitframe"])
+            fin = r.choice(["%s %s" % (obj, rem), "thread remover %s" % obj, '%s notify "sig"\n %s %s' % (obj, obj, rem), "%s commanddelay 0.05 %s" % (obj, rem)])
+            return "%s%s%s\n %s" % (pre, how, gap, fin)
+        if x < 0.93:
+            obj = r.choice(OBJECTS)
+            return r.choice(['%s waittill_timeout %s "sig"' % (obj, delay), '%s waittill_any_timeout %s "sig" "other"' % (obj, delay),
+                             '%s waittill_timeout %s %s' % (obj, delay, self.value(1))])
+        return r.choice(["local settimer %s helper" % r.choice(["1", "50", "0", " -1", "NIL"]), "delaythrow nolabel", "level.e settimer 50 helper\n level.e %s" % rem,
+                         "thread helper2\n local.th = parm.previousthread\n local.th commanddelay %s %s\n local.th %s" % (delay, cmd, rem)])
+
+    def list_stmt(self):
+        """a command applied to a receiver list (`a::b`) mixing the running thread, its group, listeners and
+        non-listeners: members are served in turn, so an error can be raised after an earlier member removed the
+        running thread's own group"""
+        r = self.rng
+        self.count("recv-list")
+        n = r.choice([2, 2, 2, 3, 3, 4])
+        ms = [r.choice(LIST_MEMBERS) for _ in range(n)]
+        if r.random() < 0.5:
+            ms[r.randrange(n)] = r.choice(["group", "local", "local.me", "self"])
+        lst = "::".join(ms)
+        cmd = r.choice(LIST_CMDS[:3]) if r.random() < 0.45 else r.choice(LIST_CMDS)
+        pre = "local.me = %s\n local.fresh = spawn Listener\n " % r.choice(["group", "group", "local", "self"])
+        x = r.random()
+        if x < 0.55:
+            return pre + "(%s) %s" % (lst, cmd)
+        if x < 0.7:
+            return pre + "local.lst = %s\n local.lst %s" % (lst, cmd)
+        if x < 0.8:
+            return pre + "local.r = (%s) %s" % (lst, r.choice(["waitthread helper 1 2", "thread remover group", "isinheritedby \"Listener\"", "thread helper 1 2"]))
+        if x < 0.9:
+            return pre + "(%s).fieldx = %s" % (lst, self.value(1))
+        return pre + "(%s) thread remover (%s)" % (lst, "::".join(r.choice(LIST_MEMBERS) for _ in range(2)))
 
     def program(self, nthreads=None):
         r = self.rng
@@ -273,7 +354,26 @@ TARGETED = [
     ("self-delete", 'local delete\n println "zombie"'),
     ("unknown-label", 'thread nolabel\n waitthread nolabel\n goto nolabel'),
     ("cmd-on-removed", 'level.dead notify "x"\n level.dead.f = 1\n println level.dead.f'),
+    # delayed events (event queue entries with a delay) whose target is gone before they are due; the harness pumps
+    # 12 frames of 60 ms afterwards (seeded C04-ind-5: ~Listener without CancelPendingEvents)
+    ("delayed-fresh-listener", 'local.l = local CreateListener\n local.l commanddelay 0.03 delete\n local.l delete\n local.l commanddelay 0.01 delete\n println "deleted"\n wait 0.2\n println "after"'),
+    ("delayed-waiter-removed", 'level.d = spawn SimpleEntity "targetname" "door"\n thread twaiter $door 0.2\n $door remove\n println "removed"\n $door commanddelay 0.05 remove\n level.d commanddelay 0.05 remove\n wait 0.4\n println "after"'),
+    ("delayed-waiter-any", 'thread twaiter level.e 0.3\n level.e thread twaiter level.e2 0.1\n level.e immediateremove\n level.e2 delete\n wait 0.5\n println "after"'),
+    ("delayed-on-ending-thread", 'local commanddelay 0.1 println "late"\n group commanddelay 0.2 println "late2"\n local commanddelay 0.3 remove'),
+    ("delayed-entity-removed", 'level.s commanddelay 0.1 println "late"\n level.s immediateremove\n $tb commanddelay 0.3 remove\n level.s2 remove\n level.s3 delete\n level.e commanddelay 0.65 delete\n level.e commanddelay 0.05 delete\n wait 0.5\n println "after"'),
+    ("delayed-timer-removed", 'level.e settimer 100 helper\n level.e delete\n local settimer 50 helper\n wait 0.3\n println "after"'),
+    # commands on receiver lists: an error raised for a later member after an earlier member removed the running
+    # thread's own group (seeded C04-ind-6: HandleScriptException without the m_ScriptClass check)
+    ("recv-list-group-alias-then-int", 'local.me = group\n (local.me::5) remove\n println "zombie"'),
+    ("recv-list-group-then-string", '(group::"abc") delete\n println "zombie"'),
+    ("recv-list-local-then-float", '(local::level.e::1.5) remove\n println "zombie"'),
+    ("recv-list-variable", 'local.lst = group::level.arr\n local.lst immediateremove\n println "zombie"'),
+    ("recv-list-nonlistener-first", '(5::level.e) remove\n println "next"\n (level.e2::NIL::level.s) notify "sig"\n (NULL::5) remove\n (level.dead::level.e2) println "x"'),
 ]
+
+NOT_TRANSPARENT = {"self-remove", "self-delete", "waiter-removed", "unknown-label", "setter-throws", "delayed-fresh-listener", "delayed-waiter-removed",
+                   "delayed-waiter-any", "delayed-on-ending-thread", "delayed-entity-removed", "delayed-timer-removed", "recv-list-group-alias-then-int",
+                   "recv-list-group-then-string", "recv-list-local-then-float", "recv-list-variable"}
 
 TARGET_EXTRA = """settest:
  println "st0"
@@ -287,4 +387,4 @@ end
 
 def targeted_program(name, body):
     src = "main:\n" + SETUP + " thread t0\n println \"done\"\nend\nt0:\n println \"m0.0\"\n " + body + "\n println \"m0.1\"\nend\n" + HELPERS + TARGET_EXTRA
-    return {"src": src, "threads": [[name not in ("self-remove", "self-delete", "waiter-removed", "unknown-label", "setter-throws")]], "name": name}
+    return {"src": src, "threads": [[name not in NOT_TRANSPARENT]], "name": name}
